@@ -52,6 +52,9 @@ UNMODELLED = [
     "ZmodN arithmetic (C07), curve formulas and addition chains (C15), Poly::roots_eval / convolve_modn_ntt (C10), big_gcd (C09): "
     "taken as exact; the constructed-input runs exercise them end to end",
     "rho_impl, PM1Base::factor, check_gcd_factor(s) wrappers: oracle-checked only (no model, no theorem)",
+    "y-normalisation of ecm_curve (two-pass prefix/suffix products of the z coordinates) and the quadratic vs roots_eval arms: "
+    "not modelled separately; every (giant, baby) pair is taken to be compared through the affine y coordinate (exercised end to end "
+    "by the constructed-order ECM runs on both arms: d1 < 4000 and d1 >= 4000 rows)",
     "bad-row prime witnesses: that the first missed value listed for a bad row is prime is checked by the translator and the oracle "
     "(Miller-Rabin), not in Lean; Lean proves it is not a grid value and does not divide one",
 ]
@@ -437,7 +440,7 @@ def reach(tier, extended):
 
 def constructed_cases(tier, rng, extended=False):
     lim = reach(tier, extended)
-    per = 2 if tier == "quick" else 6
+    per = 2 if tier == "quick" else 10
     if extended:
         per *= 3
     # P-1: every reachable row (b2 = label) with a small B1, and the hard-wired arms within reach
@@ -561,7 +564,8 @@ def split_order(o, b1):
 ECM_POINTS = {1: [(2, 3), (5, 13), (2, 5), (3, 31), (4, 9)], -1: [(5, 13), (2, 5), (11, 7), (3, 31), (3, 7)]}
 ECM128_PLANS = [(16, 660), (40, 1080), (50, 1920), (60, 1920), (100, 3000), (180, 7700), (350, 13200), (600, 20000),
                 (1000, 53000), (1500, 81000)]
-ECM_PLANS = [(200, 7700), (600, 20000), (2000, 81000), (100, 3000), (50, 1920), (2500, 126000), (2000, 323000)]
+ECM_PLANS = [(200, 7700), (600, 20000), (2000, 81000), (100, 3000), (50, 1920), (2500, 126000), (2000, 323000),
+             (5000, 2300000), (10000, 4700000), (10000, 9500000)]     # the last three take the roots_eval arm (d1 >= 4000)
 _ECM_Q = {}
 
 
@@ -827,7 +831,7 @@ def sel_cases(rng, N):
 
 
 def cases(tier, rng, extended=False):
-    scale = 1 if tier == "quick" else 8
+    scale = 1 if tier == "quick" else 20
     if extended:
         scale *= 5
     yield from table_cases()
@@ -837,7 +841,7 @@ def cases(tier, rng, extended=False):
     yield from gcdf_cases(rng, 300 * scale)
     yield from rho_cases(rng, 250 * scale)
     yield from pm1base_cases(rng, 300 * scale)
-    yield from ecm_search(rng, (600 if tier == "quick" else 40000) * (3 if extended else 1), per_class=2 if tier == "quick" else 8)
+    yield from ecm_search(rng, (600 if tier == "quick" else 120000) * (3 if extended else 1), per_class=2 if tier == "quick" else 16)
 
 
 def corpus_case(line):
